@@ -126,7 +126,7 @@ theorem later_append_succeeds (s : Sys) (h : Reachable proc true n0 s) (q : quie
 /-- no deadlock: if some thread is blocked waiting for the flock, the holder has an enabled step;
 every thread that has not returned and is not waiting has an enabled step itself. -/
 theorem no_deadlock (s : Sys) (h : Reachable proc true n0 s) (t : Nat)
-    (ht : ∀ i, s.pc t ≠ .doneOk i) (ht' : s.pc t ≠ .doneErr) :
+    (ht : ∀ i, s.pc t ≠ .doneOk i) (ht' : s.pc t ≠ .doneErr) (ht'' : s.pc t ≠ .doneFail) :
     (∃ s', step proc true s t = some s') ∨
     (s.pc t = .wantFlock ∧ ∃ u s', s.holder = some u ∧ step proc true s u = some s') := by
   have inv := reachable_inv proc n0 s h
@@ -143,6 +143,7 @@ theorem no_deadlock (s : Sys) (h : Reachable proc true n0 s) (t : Nat)
       · exact ⟨_, rfl, by unfold step; rw [hpu]⟩
       · exact ⟨_, rfl, by unfold step; rw [hpu]⟩
       · exact ⟨_, rfl, by unfold step; rw [hpu]⟩
+      · exact ⟨_, rfl, by unfold step; rw [hpu]⟩
   | haveLock => left; unfold step; rw [hpc]; exact ⟨_, rfl⟩
   | seeked i => left; unfold step; rw [hpc]; exact ⟨_, rfl⟩
   | written i => left; unfold step; rw [hpc]; exact ⟨_, rfl⟩
@@ -150,6 +151,9 @@ theorem no_deadlock (s : Sys) (h : Reachable proc true n0 s) (t : Nat)
   | doneOk i => exact absurd hpc (ht i)
   | doneErr => exact absurd hpc ht'
   | lockFailed => left; unfold step; rw [hpc]; exact ⟨_, rfl⟩
+  | bodyFailed => left; unfold step; rw [hpc]; exact ⟨_, rfl⟩
+  | unlockedErr => left; unfold step; rw [hpc]; exact ⟨_, rfl⟩
+  | doneFail => exact absurd hpc ht''
 
 /-- the schedule-level semantics that the correspondence harness validates against the real code
 only ever takes atomic steps: every state it produces is reachable, so every theorem above applies
@@ -205,8 +209,19 @@ theorem release_reachable (n : Nat) (sc : Sched) (t : Nat) (h : Reachable proc t
           · rename_i s1 hs1; exact .step t h hs1
           · exact h
         · split
-          · rename_i s1 hs1; exact .step t h hs1
-          · exact h
+          · split
+            · exact h
+            · rename_i s1 hs1
+              split
+              · exact .fail t h hs1
+              · rename_i s2 hs2
+                split
+                · rename_i s3 hs3
+                  exact wake_reachable proc n0 n _ (.step t (.step t (.fail t h hs1) hs2) hs3)
+                · exact .step t (.fail t h hs1) hs2
+          · split
+            · rename_i s1 hs1; exact .step t h hs1
+            · exact h
         · split
           · exact h
           · rename_i s1 hs1
@@ -272,25 +287,18 @@ theorem exec_reachable (cl : Bool) : ∀ (as : List Act) (s s' : Sys), Reachable
 theorem step_pc_other (cl : Bool) (s s' : Sys) (t u : Nat) (h : step proc cl s t = some s') (hu : u ≠ t) :
     s'.pc u = s.pc u := by
   unfold step at h
-  split at h
-  · split at h <;> (simp only [Option.some.injEq] at h; subst h; simp [setPc, hu])
-  · split at h
-    · simp only [Option.some.injEq] at h; subst h; simp [setPc, hu]
-    · simp at h
-  · simp only [Option.some.injEq] at h; subst h; simp [setPc, hu]
-  · simp only [Option.some.injEq] at h; subst h; simp [setPc, hu]
-  · simp only [Option.some.injEq] at h; subst h; simp [setPc, hu]
-  · simp only [Option.some.injEq] at h; subst h; simp [setPc, hu]
-  · split at h <;> (simp only [Option.some.injEq] at h; subst h; simp [setPc, hu])
-  · simp at h
-  · simp at h
+  split at h <;> (try split at h) <;>
+    first
+      | (simp only [Option.some.injEq] at h; subst h; simp [setPc, hu])
+      | simp at h
 
 theorem failStep_pc_other (s s' : Sys) (t u : Nat) (h : failStep s t = some s') (hu : u ≠ t) :
     s'.pc u = s.pc u := by
   unfold failStep at h
-  split at h
-  · simp only [Option.some.injEq] at h; subst h; simp [setPc, hu]
-  · simp at h
+  split at h <;>
+    first
+      | (simp only [Option.some.injEq] at h; subst h; simp [setPc, hu])
+      | simp at h
 
 def Act.thread : Act → Nat
   | .st t => t
